@@ -168,7 +168,9 @@ ITEMS = location_types() + budget_types() + error_types() + [
                                         canaries=['override_else_current_else_last']),
          }),
     dict(src=D, path='fn capture_node', props=['C03', 'C04', 'C08', 'C01'],
-         rewrites=[(r'events\.extend\((\w+)\);', r'vec_extend_ev(&mut events, \1);', None, 'R8')],
+         rewrites=[(r'events\.extend\((\w+)\);', r'vec_extend_ev(&mut events, \1);', None, 'R8'),
+                   # R41: `v.sort_unstable()` / `v.sort()` (if a change introduces one): assumed to leave a permutation of the vector
+                   (r'(\w+)\.sort(_unstable)?\(\);', r'vec_sort_permutes(&mut \1);', None, 'R41')],
          decreases='old(ev).rest().len()',
          ensures=[
              ('captures_exactly_one_node', '''match r {
@@ -490,10 +492,10 @@ ITEMS = location_types() + budget_types() + error_types() + [
                     'let defined_location = (match replay.peek()? { Some(ev) => ev.location(), None => replay.last_location() });', 1, 'R18'),
                    (r'let defined_location = self\s*\.ev\s*\.peek\(\)\?\s*\.map\(\|ev: &Ev\| ev\.location\(\)\)\s*\.unwrap_or_else\(\|\| self\.ev\.last_location\(\)\);',
                     'let defined_location = (match self.ev.peek()? { Some(ev) => ev.location(), None => self.ev.last_location() });', 1, 'R18'),
-                   (r'let de = YamlDeserializer::new\(&mut replay, self\.cfg\);\s*seed\.deserialize\(de\)\.map_err\(\|e\| \{\s*attach_alias_locations_if_missing\(e, reference_location, defined_location\)\s*\}\)',
-                    'value_seed_on_replay(seed, &mut replay, self.cfg, reference_location, defined_location)', 1, 'R8+R18'),
-                   (r'let de = YamlDeserializer::new\(self\.ev, self\.cfg\);\s*seed\.deserialize\(de\)\.map_err\(\|e\| \{\s*attach_alias_locations_if_missing\(e, reference_location, defined_location\)\s*\}\)',
-                    'value_seed_on_live(seed, self.ev, self.cfg, reference_location, defined_location)', 1, 'R8+R18')],
+                   (r'let de = YamlDeserializer::new\(&mut replay, self\.cfg\);\s*seed\.deserialize\(de\)\.map_err\(\|e\| \{\s*attach_alias_locations_if_missing\(e, (\w+), (\w+)\)\s*\}\)',
+                    r'{ let __use_site = \1; let __def_site = \2; value_seed_on_replay(seed, &mut replay, self.cfg, __use_site, __def_site) }', 1, 'R8+R18'),
+                   (r'let de = YamlDeserializer::new\(self\.ev, self\.cfg\);\s*seed\.deserialize\(de\)\.map_err\(\|e\| \{\s*attach_alias_locations_if_missing\(e, (\w+), (\w+)\)\s*\}\)',
+                    r'{ let __use_site = \1; let __def_site = \2; value_seed_on_live(seed, self.ev, self.cfg, __use_site, __def_site) }', 1, 'R8+R18')],
          ensures=[('C05:a_value_is_only_handed_out_after_its_key', '!old(self).have_key ==> r is Err && r->Err_0 is ValueRequestedBeforeKey && final(self).ev.rest() == old(self).ev.rest() && final(self).pending_value == old(self).pending_value'),
                   ('C05:each_key_is_paired_with_exactly_one_value', 'old(self).have_key ==> !final(self).have_key && final(self).pending_value is None'),
                   ('C05:a_buffered_value_is_read_from_exactly_its_recorded_events_and_the_live_cursor_stays', '''old(self).have_key && old(self).pending_value is Some ==>
@@ -503,8 +505,8 @@ ITEMS = location_types() + budget_types() + error_types() + [
                   ('C05:a_live_value_is_read_at_the_untouched_cursor_with_the_next_node_as_definition_site', '''old(self).have_key && old(self).pending_value is None && r is Ok && old(self).ev.rest().len() > 0 ==>
                         exists|rl: Location| r == #[trigger] value_seed_result(seed, old(self).ev.rest(), old(self).cfg, rl, old(self).ev.rest()[0].spec_location())'''),
                   ('config_and_keys_untouched', 'final(self).cfg == old(self).cfg && final(self).seen == old(self).seen && final(self).pending == old(self).pending && final(self).merge_stack == old(self).merge_stack')],
-         proofs=[dict(before='value_seed_on_live(seed, self.ev, self.cfg, reference_location, defined_location)', label='C16:a_value_error_site_is_the_value_node_or_the_alias_token_that_stands_for_it',
-                      text='assert(self.ev.rest().len() > 0 ==> reference_location == spec_use_site(self.ev.use_site_override(), self.ev.rest()[0]) && defined_location == self.ev.rest()[0].spec_location());'),
+         proofs=[dict(before='value_seed_on_live(seed, self.ev, self.cfg, __use_site, __def_site)', label='C16:a_value_error_site_is_the_value_node_or_the_alias_token_that_stands_for_it',
+                      text='assert(self.ev.rest().len() > 0 ==> __use_site == spec_use_site(self.ev.use_site_override(), self.ev.rest()[0]) && __def_site == self.ev.rest()[0].spec_location());'),
                  dict(before='let mut replay = ReplayEvents::with_reference(events, reference_location);', ghost=True, text='let ghost ev0 = events@;'),
                  dict(after='let mut replay = ReplayEvents::with_reference(events, reference_location);', text='assert(replay.rest() =~= ev0); assert(ev0.skip(0) =~= ev0);')],
          canaries=['C05:a_value_is_only_handed_out_after_its_key', 'C05:each_key_is_paired_with_exactly_one_value']),
@@ -531,10 +533,10 @@ ITEMS = location_types() + budget_types() + error_types() + [
                         'fn newtype_variant_seed(mut self, seed: ValSeed) -> Result<PayVal, Error>', 1, 'R9')],
          rewrites=[(r'let defined_location = this\s*\.ev\s*\.peek\(\)\?\s*\.map\(\|ev: &Ev\| ev\.location\(\)\)\s*\.unwrap_or_else\(\|\| this\.ev\.last_location\(\)\);',
                     'let defined_location = (match this.ev.peek()? { Some(ev) => ev.location(), None => this.ev.last_location() });', 1, 'R18'),
-                   (r'let value = seed\s*\.deserialize\(YamlDeserializer::new\(this\.ev, this\.cfg\)\)\s*\.map_err\(\|e\| \{\s*attach_alias_locations_if_missing\(e, reference_location, defined_location\)\s*\}\)\?;',
-                    'let value = variant_payload_newtype(seed, this.ev, this.cfg, reference_location, defined_location)?;', 1, 'R8+R18')],
+                   (r'let value = seed\s*\.deserialize\(YamlDeserializer::new\(this\.ev, this\.cfg\)\)\s*\.map_err\(\|e\| \{\s*attach_alias_locations_if_missing\(e, (\w+), (\w+)\)\s*\}\)\?;',
+                    r'let __use_site = \1; let __def_site = \2; let value = variant_payload_newtype(seed, this.ev, this.cfg, __use_site, __def_site)?;', 1, 'R8+R18')],
          proofs=[dict(before_re=r'let value = variant_payload_newtype\(', label='C16:a_payload_error_site_is_the_payload_node_or_the_alias_token_that_stands_for_it', props=['C16', 'C05'],
-                      text='assert(this.ev.rest().len() > 0 ==> reference_location == spec_use_site(this.ev.use_site_override(), this.ev.rest()[0]) && defined_location == this.ev.rest()[0].spec_location());'),
+                      text='assert(this.ev.rest().len() > 0 ==> __use_site == spec_use_site(this.ev.use_site_override(), this.ev.rest()[0]) && __def_site == this.ev.rest()[0].spec_location());'),
                  dict(after_re=r'let (value|result) = variant_payload_\w+\([^;]*\)\?;', ghost=True, text='let ghost rest_p = this.ev.rest();'),
                  dict(before_re=r'Ok\((value|result)\)\s*\}', label='C05:an_externally_tagged_payload_is_followed_by_exactly_the_mapping_end',
                       text='assert(if this.map_mode { rest_p.len() > 0 && rest_p[0] is MapEnd && this.ev.rest() == rest_p.skip(1) } else { this.ev.rest() == rest_p });')]),
